@@ -163,8 +163,17 @@ func UnprotectedJSON(u Unprotected) string {
 
 // JWSSign builds the parts of a JWS over the given protected members and payload, signed by key under signAlg.
 func JWSSign(protected []Member, payload []byte, u Unprotected, key *pki.Key, signAlg Alg) (parts JWSParts, signingInput []byte, sig []byte, valid bool) {
+	return JWSSignText(protected, payload, nil, u, key, signAlg)
+}
+
+// JWSSignText is JWSSign with the base64url text of the payload rewritten by text before it is signed (e.g. line-wrapped: base64
+// decoders skip CR and LF, and the signature covers the characters as carried).
+func JWSSignText(protected []Member, payload []byte, text func(string) string, u Unprotected, key *pki.Key, signAlg Alg) (parts JWSParts, signingInput []byte, sig []byte, valid bool) {
 	parts.Protected = B64([]byte(ObjectJSON(protected)))
 	parts.Payload = B64(payload)
+	if text != nil {
+		parts.Payload = text(parts.Payload)
+	}
 	signingInput = []byte(parts.Protected + "." + parts.Payload)
 	sig, valid = Sign(key, signAlg, signingInput)
 	parts.Signature = B64(sig)
